@@ -455,8 +455,27 @@ func (w *twkbWriter) writeGeometryCollection(gc GeometryCollection) error {
 		}
 		subTWKB := subWriter.formTWKB()
 		w.twkbContents = append(w.twkbContents, subTWKB...)
+		w.mergeBBox(subWriter)
 	}
 	return nil
+}
+
+// mergeBBox expands the bounding box accumulated so far to also cover the
+// bounding box accumulated by another writer (used for the children of a
+// GeometryCollection, which are written by their own writers).
+func (w *twkbWriter) mergeBBox(other *twkbWriter) {
+	if !other.bboxValid {
+		return
+	}
+	for d := 0; d < w.dimensions; d++ {
+		if !w.bboxValid || other.bboxMin[d] < w.bboxMin[d] {
+			w.bboxMin[d] = other.bboxMin[d]
+		}
+		if !w.bboxValid || other.bboxMax[d] > w.bboxMax[d] {
+			w.bboxMax[d] = other.bboxMax[d]
+		}
+	}
+	w.bboxValid = true
 }
 
 func (w *twkbWriter) writeTypeAndPrecision(kind twkbGeometryType) {
